@@ -82,7 +82,17 @@ func (u *Unit) callValue(st *State, fr *Frame, instr ssa.Instruction, fv Val, ar
 		if len(fv.Terms) > 0 {
 			u.oblige(st, "nil", "fn", sNot(sEq(fv.Terms[0], "0")), pos, "call of nil function value", nil, "")
 		}
-		return u.callFuncValue(st, fr, instr, fv, args, sig, resv, pos)
+		if _, has := u.eng.cs.Funcs[sigKey(sig)]; !has {
+			if fnv, handled, cont := u.dispatchClosure(st, fr, instr, fv, sig, pos); handled {
+				if !cont {
+					return false
+				}
+				fv.Fn = fnv
+			}
+		}
+		if fv.Fn == nil {
+			return u.callFuncValue(st, fr, instr, fv, args, sig, resv, pos)
+		}
 	}
 	fn := fv.Fn.Fn
 	u.callSiteClauses(st, fr, relName(fn), args, pos)
@@ -897,6 +907,87 @@ func (u *Unit) closureCreated(st *State, fr *Frame, cv Val, pos token.Pos) {
 		return
 	}
 	u.decreaseObligation(st, "dec@create:"+relName(cv.Fn.Fn), c.Decreases, env, st, pos)
+}
+
+// closureCandidates lists the anonymous functions of the function under contract (and of
+// the functions inlined on this path) whose signature is sig: the closures a function value
+// of that type can be on this path, provided the "closure-target" obligation holds.
+func (u *Unit) closureCandidates(st *State, sig *types.Signature) []*ssa.Function {
+	var out []*ssa.Function
+	seen := map[*ssa.Function]bool{}
+	var walk func(f *ssa.Function)
+	walk = func(f *ssa.Function) {
+		for _, a := range f.AnonFuncs {
+			if seen[a] {
+				continue
+			}
+			seen[a] = true
+			if types.Identical(a.Signature, sig) && a.Blocks != nil {
+				ok := true
+				for _, fv := range a.FreeVars {
+					if ls := u.eng.leavesOf(fv.Type()); len(ls) != 1 || ls[0].Sort != "Int" {
+						ok = false
+					}
+				}
+				if ok {
+					out = append(out, a)
+				}
+			}
+			walk(a)
+		}
+	}
+	root := u.fn
+	for root.Parent() != nil {
+		root = root.Parent()
+	}
+	walk(root)
+	return out
+}
+
+// dispatchClosure resolves a call through a function value whose identity is not known on
+// the Go side. The value is one of the closures created in the function under contract
+// (obligation "closure-target": fnid(f) is one of them); the path is split per candidate,
+// each successor re-executes the call with the candidate's code and the captured cells
+// capv(f, j). Only plain calls are dispatched (not defer/go).
+func (u *Unit) dispatchClosure(st *State, fr *Frame, instr ssa.Instruction, fv Val, sig *types.Signature, pos token.Pos) (*FnVal, bool, bool) {
+	if _, isCall := instr.(*ssa.Call); !isCall || len(fv.Terms) != 1 {
+		return nil, false, false
+	}
+	key := "clochoice:" + fv.Terms[0]
+	if ch, ok := st.info[key]; ok && ch.Fn != nil {
+		return ch.Fn, true, true
+	}
+	cands := u.closureCandidates(st, sig)
+	if len(cands) == 0 {
+		return nil, false, false
+	}
+	var alts []Term
+	for _, c := range cands {
+		alts = append(alts, fmt.Sprintf("(= (fnid %s) %d)", fv.Terms[0], u.fnID(c)))
+	}
+	u.oblige(st, "closure-target", "", sOr(alts...), pos, "the function value called here is one of the closures created in this function", nil, "")
+	for i, c := range cands {
+		o := u.fork(st)
+		o.assume(alts[i])
+		var bind []Val
+		for j, fvar := range c.FreeVars {
+			b := Val{T: fvar.Type(), Terms: []Term{fmt.Sprintf("(capv %s %d)", fv.Terms[0], j)}}
+			if _, isPtr := fvar.Type().Underlying().(*types.Pointer); isPtr {
+				o.assume(fmt.Sprintf("(not (= %s 0))", b.Terms[0]))
+			}
+			u.assumeTyping(o, b)
+			bind = append(bind, b)
+		}
+		if o.info == nil {
+			o.info = map[string]Val{}
+		}
+		o.info[key] = Val{Fn: &FnVal{Fn: c, Bind: bind}}
+		o.top().idx--
+		if u.feasible(o) {
+			u.work = append(u.work, o)
+		}
+	}
+	return nil, true, false
 }
 
 // callFuncValue: call through a function value of unknown identity.
